@@ -169,7 +169,13 @@ class ConstantFolder(VyperNodeVisitorBase):
                 raise UnfoldableNode("Node contains invalid field(s) for evaluation")
             if len(set([type(i) for i in right.elements])) > 1:
                 raise UnfoldableNode("List contains multiple literal types")
-            value = node.op._op(left.value, [i.value for i in right.elements])
+            lvalue, rvalues = left.value, [i.value for i in right.elements]
+            if isinstance(left, vy_ast.Hex):
+                # Hex values are str, convert to be case-unsensitive
+                # (as for `==` and `!=` below).
+                lvalue = lvalue.lower()
+                rvalues = [v.lower() if isinstance(v, str) else v for v in rvalues]
+            value = node.op._op(lvalue, rvalues)
             return vy_ast.NameConstant.from_node(node, value=value)
 
         if not isinstance(left, type(right)):
